@@ -211,7 +211,20 @@ fn main() {
                     "write_metadata" => o.arg.md = md_of(&mut r, "G"),
                     "write_env" => o.arg.env = if r.u32(..5) == 0 { "none".into() } else { pick(&mut r, &env_toks).into() },
                     "write_sboms" => o.arg.sbom = sbom3(&mut r, &sboms, 0.4),
-                    "write_exec_d" => { o.arg.execd = subset(&mut r, &execs); if r.u32(..4) == 0 { o.arg.execd.insert(if r.bool() { "gone" } else { "dangling" }.into()); } }
+                    "write_exec_d" => {
+                        o.arg.execd = subset(&mut r, &execs);
+                        if r.u32(..4) == 0 { o.arg.execd.insert(if r.bool() { "gone" } else { "dangling" }.into()); }
+                        if digests && r.u32(..3) == 0 {
+                            // (paired runs of C20 only, never sent to TLC) a program that is re-registered from the
+                            // layer's own exec.d: its source is there when the call starts and gone once exec.d is replaced
+                            let link = u.exec_src.join("self");
+                            let _ = std::fs::remove_file(&link);
+                            std::os::unix::fs::symlink(layers_dir.join(&n).join("exec.d").join("p1"), &link).unwrap();
+                            o.arg.execd.insert("self".into());
+                            o.arg.execd.insert("p2".into());
+                            o.arg.execd.insert("p3".into());
+                        }
+                    }
                     "write_file" => o.arg.file = pick(&mut r, &files).into(),
                     _ => {}
                 }
